@@ -7,7 +7,8 @@ import EmsModel.Core.Proto
                                                  → the stored variable: `dims=f,m|shape=3x4|F:<rows>|<start>`
 `roundtrip <same arguments>`                     → `_to_index_array(encode …)`: `<rows>` | `ERR:…`
 `decode dims=<a,b> shape=<n>x<m> <payload> <start> primary=<dim>` → `<rows>` | `ERR:…`
-`topo A=<attrs> S=<sizes> V=<var> … N=<numbering>` → `fn=…|en=…|fe=…|ef=…|ff=…|dims=…|poly=…|fc=…`
+`topo A=<attrs> S=<sizes> V=<var> … N=<numbering> [Q=<c|t|ct>]` (Q: reproduce a recorded deviation)
+                                                 → `fn=…|en=…|fe=…|ef=…|ff=…|dims=…|poly=…|fc=…`
 `propcheck w=<n> faces=<rows>`                   → `ok` | `FAIL:<conclusion>`
 
 rows: `;` between rows, `,` between cells, `-` a masked / NaN cell, `e` an empty table,
@@ -143,7 +144,7 @@ def parseVar? (s : String) : Option Var :=
              encFill := ef, vals := [] }
   | _ => none
 
-def parseDS? (ws : List String) : Option (DS × Option (List Pair)) := do
+def parseDS? (ws : List String) : Option (DS × Option (List Pair) × Quirks) := do
   let args := kv ws
   let a ← args.lookup "A"
   let attrs ← if a == "-" then some [] else allSome ((a.splitOn ";").map fun kvs =>
@@ -168,22 +169,29 @@ def parseDS? (ws : List String) : Option (DS × Option (List Pair)) := do
   let numbering ← if n == "-" then some none
     else if n == "e" then some (some [])
     else (allSome ((n.splitOn ",").map parsePair?)).map some
-  pure ({ attrs := attrs, vars := vars, sizes := sizes }, numbering)
+  let q ← match args.lookup "Q" with
+    | none => some ({} : Quirks)
+    | some "-" => some {}
+    | some "c" => some { coordsInDataVars := true }
+    | some "t" => some { twoDimGuess := true }
+    | some "ct" => some { coordsInDataVars := true, twoDimGuess := true }
+    | _ => none
+  pure ({ attrs := attrs, vars := vars, sizes := sizes }, numbering, q)
 
 def showRing (r : List (Rat × Rat)) : String :=
   joinWith ";" (r.map fun (x, y) => s!"{showRat x},{showRat y}")
 
-def topoLine (ds : DS) (numbering : Option (List Pair)) : String :=
-  let dims := joinWith "," [showExcept id ds.faceDim, showExcept id ds.nodeDim,
-                            showExcept id ds.edgeDim, showExcept id ds.maxNodeDim, ds.twoDim]
-  let poly := showExcept (fun rings => if rings.isEmpty then "e" else joinWith "/" (rings.map showRing)) ds.polygonRings
-  let fc := match ds.storedFaceCentres with
+def topoLine (ds : DS) (numbering : Option (List Pair)) (q : Quirks) : String :=
+  let dims := joinWith "," [showExcept id ds.faceDim, showExcept id (ds.nodeDim q),
+                            showExcept id ds.edgeDim, showExcept id ds.maxNodeDim, ds.twoDim q]
+  let poly := showExcept (fun rings => if rings.isEmpty then "e" else joinWith "/" (rings.map showRing)) (ds.polygonRings q)
+  let fc := match ds.storedFaceCentres q with
     | none => "-"
     | some cs => showRing cs
-  let tabs := match ds.topoIn numbering with
+  let tabs := match ds.topoIn numbering q with
     | .error e => s!"fn={showErr e}|en={showErr e}|fe={showErr e}|ef={showErr e}|ff={showErr e}"
     | .ok t =>
-      s!"fn={showTable t.faceNode}|en={showExcept showTable t.edgeNodeArray}|fe={showExcept showTable t.faceEdgeArray}|ef={showExcept showTable t.edgeFaceArray}|ff={showExcept showTable t.faceFaceArray}"
+      s!"fn={showExcept showTable t.faceNode}|en={showExcept showTable t.edgeNodeArray}|fe={showExcept showTable t.faceEdgeArray}|ef={showExcept showTable t.edgeFaceArray}|ff={showExcept showTable t.faceFaceArray}"
   s!"{tabs}|dims={dims}|poly={poly}|fc={fc}"
 
 /-! decidable forms of the conclusions of the property theorems, evaluated on the model -/
@@ -262,7 +270,7 @@ def step (line : String) : String :=
   | "topo" :: rest =>
     match parseDS? rest with
     | none => "BAD"
-    | some (ds, numbering) => topoLine ds numbering
+    | some (ds, numbering, q) => topoLine ds numbering q
   | "propcheck" :: rest =>
     let args := kv rest
     match (args.lookup "w").bind parseNat?, (args.lookup "faces").bind parseNatRows? with
